@@ -55,3 +55,20 @@ class Search:
 
 def E_args(b, cv='Cv'):
     return (b['vls'], b['Dp'], b['d'], b['epsilon'], b['nu'], b['rhol'], b['rhos'], b[cv])
+
+
+def raise_site(e):
+    """(function name, source line) of the innermost frame of an exception -- identifies a call site"""
+    import traceback
+    tb = traceback.extract_tb(e.__traceback__)
+    if not tb:
+        return ('?', '?')
+    fr = tb[-1]
+    return (fr.name, (fr.line or '').strip())
+
+
+def is_slip_pole(e):
+    """the recorded finding: the exact zero of the denominator of Eqn 8.12-3 -- ZeroDivisionError raised by the
+    assignment of Xi_fb inside DHLLDV_framework.slip_ratio, and by nothing else"""
+    fn, line = raise_site(e)
+    return isinstance(e, ZeroDivisionError) and fn == 'slip_ratio' and line.startswith('Xi_fb =')
